@@ -12,7 +12,7 @@ V = Path(__file__).resolve().parents[1]
 tier = "quick"
 for pid in sys.argv[1:]:
     src = Path("/tmp/mut") / pid
-    for n in (1, 2, 3):
+    for n in (1, 2, 3, 4):
         patch, demo = src / ("patch%d.diff" % n), src / ("demo%d.py" % n)
         if not patch.exists() or not demo.exists():
             continue
